@@ -106,7 +106,9 @@ func scanStashed(cb GitScannerFoundPointer) error {
 	// Having no stash at all is the common case and not an error; once
 	// refs/stash exists, a failure to walk it means the stashed objects
 	// are unknown.
-	if _, err := subprocess.SimpleExec("git", "show-ref", "--verify", "--quiet", "refs/stash"); err != nil {
+	// (rev-parse only resolves the ref; show-ref would also fail, and so
+	// look like "no stash", when the stash commit itself is missing.)
+	if _, err := subprocess.SimpleExec("git", "rev-parse", "--verify", "--quiet", "refs/stash"); err != nil {
 		return nil
 	}
 
